@@ -121,6 +121,14 @@ fn run_sequence(seq: &[(Req, Fill, Restore)], r: &mut Report) {
                 lr.write_metadata(Rich { version: "1".into(), checksum: "abc".into() }).unwrap();
                 let want: toml::Value = toml::Value::try_from(Rich { version: "1".into(), checksum: "abc".into() }).unwrap();
                 if metadata_of(&layers).as_ref() != Some(&want) { r.violation("metadata_rewritten_shorter", "after write_metadata the layer's metadata file holds exactly the metadata written last (also when it is shorter than what was there)", format!("sequence {seq:?}, step {step}: write_metadata(checksum = 300 x 'z') then write_metadata(checksum = \"abc\")"), format!("{want:?}"), format!("{:?} (file: {:?})", metadata_of(&layers), fs::read_to_string(layers.join("x.toml")).unwrap_or_default().chars().take(200).collect::<String>())); }
+                // a metadata write that FAILS (the value cannot be written as TOML) leaves the content-metadata file as it was: flags and last metadata intact
+                {
+                    #[derive(Serialize)] struct Big { n: u64 }
+                    let before_file = fs::read(layers.join("x.toml")).ok();
+                    if lr.write_metadata(Big { n: u64::MAX }).is_err() && fs::read(layers.join("x.toml")).ok() != before_file {
+                        r.violation("failed_metadata_write", "a write_metadata call that returns an error leaves the layer's content-metadata file (requested flags, metadata written last) as it was", format!("sequence {seq:?}, step {step}: write_metadata(n = u64::MAX) -> Err"), String::from_utf8_lossy(&before_file.unwrap_or_default()).to_string(), fs::read_to_string(layers.join("x.toml")).unwrap_or_else(|e| e.to_string()));
+                    }
+                }
                 let mut env = LayerEnv::new(); env.insert(Scope::All, ModificationBehavior::Override, "A", "1"); env.insert(Scope::Process("web".into()), ModificationBehavior::Append, "B", "2");
                 lr.write_env(env).unwrap();
                 // LayerRef::write_sboms REPLACES the layer's SBOMs: afterwards exactly the given formats exist
